@@ -78,10 +78,10 @@ type c17Op struct {
 
 func (o c17Op) String() string {
 	if o.Op == "open" {
-		return fmt.Sprintf("Open(f%d%s)", o.DSN/2, map[int]string{0: "", 1: "+opts"}[o.DSN%2])
+		return fmt.Sprintf("Open(f%d%s%s)", c17File(o.DSN), map[int]string{0: "", 1: "+opts"}[o.DSN%2], map[int]string{0: "", 1: " spelled differently"}[c17Alias(o.DSN)])
 	}
 	if o.Op == "openq" {
-		return fmt.Sprintf("Open+query(f%d%s as h%d)", o.DSN/2, map[int]string{0: "", 1: "+opts"}[o.DSN%2], o.H)
+		return fmt.Sprintf("Open+query(f%d%s%s as h%d)", c17File(o.DSN), map[int]string{0: "", 1: "+opts"}[o.DSN%2], map[int]string{0: "", 1: " spelled differently"}[c17Alias(o.DSN)], o.H)
 	}
 	if o.Op == "swap" {
 		return "replace-file(f0)"
@@ -90,6 +90,18 @@ func (o c17Op) String() string {
 		return "point-symlink-f0-to-another-index"
 	}
 	return fmt.Sprintf("%s(h%d)", o.Op, o.H)
+}
+
+// DSN numbers: bit 0 = option string, bit 1 = file, bit 2 = the path is spelled differently (<dir>/./<name>): the same
+// file live under two spellings of its path at once must behave like the same file under one spelling.
+func c17File(dsn int) int  { return (dsn / 2) % 2 }
+func c17Alias(dsn int) int { return dsn / 4 }
+
+func c17Spell(path string, alias int) string {
+	if alias == 0 {
+		return path
+	}
+	return filepath.Dir(path) + "/./" + filepath.Base(path)
 }
 
 type c17Case struct {
@@ -187,7 +199,7 @@ func c17Play(ctx *rt.Ctx, c c17Case, all bool) (viol string, sigOverride string,
 	liveOpts := func(file int, except int) map[int]bool { // option strings under which handles with an open connection exist
 		m := map[int]bool{}
 		for hi, h := range handles {
-			if hi != except && h.dsn/2 == file && h.db.Stats().OpenConnections > 0 {
+			if hi != except && c17File(h.dsn) == file && h.db.Stats().OpenConnections > 0 {
 				m[h.dsn%2] = true
 			}
 		}
@@ -205,7 +217,7 @@ func c17Play(ctx *rt.Ctx, c c17Case, all bool) (viol string, sigOverride string,
 				}
 				// residual class: the file is live under different options
 				if h := handles[o.H]; h != nil && o.Op != "open" && o.Op != "close" {
-					if lo := liveOpts(h.dsn/2, o.H); lo[1-h.dsn%2] && !lo[h.dsn%2] {
+					if lo := liveOpts(c17File(h.dsn), o.H); lo[1-h.dsn%2] && !lo[h.dsn%2] {
 						if _, ok := r.(flk.WouldBlock); !ok {
 							return
 						}
@@ -238,7 +250,7 @@ func c17Play(ctx *rt.Ctx, c c17Case, all bool) (viol string, sigOverride string,
 			}
 			content[0] = 1
 		case "open":
-			db, err := sql.Open("updog", "file:"+files[o.DSN/2]+c17Opts[o.DSN%2])
+			db, err := sql.Open("updog", "file:"+c17Spell(files[c17File(o.DSN)], c17Alias(o.DSN))+c17Opts[o.DSN%2])
 			if err != nil {
 				return fmt.Sprintf("step %d %s failed: %v", n+1, o, err), ""
 			}
@@ -258,7 +270,7 @@ func c17Play(ctx *rt.Ctx, c c17Case, all bool) (viol string, sigOverride string,
 			h := handles[o.H]
 			if rows, err := h.db.Query(`nosuchcolumn = "1" ; c`); err == nil {
 				rows.Close()
-				if lo := liveOpts(h.dsn/2, o.H); !(lo[1-h.dsn%2] && !lo[h.dsn%2]) {
+				if lo := liveOpts(c17File(h.dsn), o.H); !(lo[1-h.dsn%2] && !lo[h.dsn%2]) {
 					return fmt.Sprintf("step %d %s: a query on an unknown column succeeded", n+1, o), ""
 				}
 			}
@@ -270,8 +282,8 @@ func c17Play(ctx *rt.Ctx, c c17Case, all bool) (viol string, sigOverride string,
 			}
 		case "query", "prep", "query2":
 			h := handles[o.H]
-			conflict := func() bool { lo := liveOpts(h.dsn/2, o.H); return lo[1-h.dsn%2] && !lo[h.dsn%2] }()
-			want := c17Expected(content[h.dsn/2])
+			conflict := func() bool { lo := liveOpts(c17File(h.dsn), o.H); return lo[1-h.dsn%2] && !lo[h.dsn%2] }()
+			want := c17Expected(content[c17File(h.dsn)])
 			run := func() (string, error) {
 				// a value that occurs nowhere: must give no rows (and must not leave anything behind that blocks Close)
 				if rows, err := h.db.Query(`a = "no such value" ; c`); err != nil {
@@ -338,7 +350,7 @@ func c17Play(ctx *rt.Ctx, c c17Case, all bool) (viol string, sigOverride string,
 		for f := 0; f < 2; f++ {
 			live := false
 			for _, h := range handles {
-				live = live || h.dsn/2 == f
+				live = live || c17File(h.dsn) == f
 			}
 			if !live && !flk.Free(files[f]) {
 				return fmt.Sprintf("after step %d %s no handle on file f%d is open but the file is still locked", n+1, o, f), ""
@@ -386,7 +398,13 @@ func c17DriverDump(files [2]string) (out string) {
 	db.Close()
 	d := rt.DeepDump(drv, 3)
 	for i, f := range files {
+		d = strings.ReplaceAll(d, c17Spell(f, 1), fmt.Sprintf("F%d", i))
 		d = strings.ReplaceAll(d, f, fmt.Sprintf("F%d", i))
+		// a driver may register a file under its resolved path: same name in the key (which file it is at the moment
+		// is in the key already: content[])
+		if real, err := filepath.EvalSymlinks(f); err == nil && real != f {
+			d = strings.ReplaceAll(d, real, fmt.Sprintf("F%d", i))
+		}
 	}
 	return c17OldPath.ReplaceAllString(d, "OLD")
 }
@@ -443,7 +461,7 @@ func liveCountBelow(live map[int]bool, h int) bool {
 func c17Alphabet() []c17Op {
 	var ops []c17Op
 	for h := 0; h < 3; h++ {
-		for d := 0; d < 4; d++ {
+		for d := 0; d < 5; d++ { // 4: file 0 without options under another spelling of its path
 			ops = append(ops, c17Op{Op: "open", DSN: d, H: h})
 		}
 	}
@@ -480,6 +498,8 @@ func c17Unmerged(ctx *rt.Ctx, pool int) []*rt.Violation {
 		for _, d := range []int{0, 1, 2} {
 			alpha = append(alpha, c17Op{Op: "open", DSN: d, H: h}, c17Op{Op: "openq", DSN: d, H: h})
 		}
+		// file 0 under another spelling of its path, without and with options (opened and used at once)
+		alpha = append(alpha, c17Op{Op: "openq", DSN: 4, H: h}, c17Op{Op: "openq", DSN: 5, H: h})
 		alpha = append(alpha, c17Op{Op: "query", H: h}, c17Op{Op: "close", H: h})
 	}
 	alpha = append(alpha, c17Op{Op: "swap"}, c17Op{Op: "relink"}) // histories that replace the closed file may be one step longer
